@@ -134,7 +134,7 @@ def check(ctx, src, tgt, radius, desc):
                             elif mvar is None:
                                 if not math.isnan(sv_):
                                     ctx.disagree("stddev", {**inp, "target": int(j), "channel": c}, float(sv_), "nan")
-                            elif wl.size and wl.min() < 1e-6 * wl.max():
+                            elif wl.size and (wl.min() < 1e-6 * wl.max() or wl.max() < 1e-120):   # (or the squares of the weights underflow)
                                 ctx.count("stddev.skipped.ill_conditioned_weights")   # V1 - V2/V1 cancels when one weight dominates: float conditioning, not compared
                             elif mvar >= 0 and not (math.isnan(sv_) and mvar < 1e-18) and not abs(sv_ ** 2 - mvar) <= 1e-7 * max(1.0, mvar) + 1e-14 * float(np.abs(xs).max()) * math.sqrt(mvar + 1.0):
                                 ctx.disagree("stddev", {**inp, "target": int(j), "channel": c}, float(sv_ ** 2), mvar)
@@ -217,7 +217,72 @@ def check(ctx, src, tgt, radius, desc):
         ctx.case("gauss", (desc, vname, str(sigmas), k), nontrivial=nch > 1 and len(set(sigmas)) > 1, sample={"input": inp} if nch == 3 else None)
 
 
+def suite_no_neighbour_locations(ctx):
+    """locations that cannot get a value - target pixels without valid coordinates (space pixels of a geostationary disk), targets out of reach,
+    a source the target does not overlap at all - carry the fill value / are masked, count 0 and NO standard deviation, for every dtype and fill"""
+    from pyresample import kd_tree
+    from pyresample.geometry import SwathDefinition
+    r = ctx.rng
+    geos = {"proj": "geos", "h": 35785831.0, "lon_0": 0.0, "a": 6378169.0, "b": 6356583.8}
+    disk = kc.mk_area(geos, 9, 9, (-5570000.0, -5570000.0, 5570000.0, 5570000.0))
+    laea_far = kc.mk_area({"proj": "laea", "lat_0": -60, "lon_0": 150, "ellps": "WGS84"}, 5, 4, (-2.0e5, -2.0e5, 2.0e5, 2.0e5))
+    lon, lat = kc.swath(r, 9, 8, 5.0, 10.0, 30.0)
+    src = SwathDefinition(lon, lat)
+    n_src = lon.size
+    ids = np.arange(n_src, dtype=float).reshape(lon.shape)
+
+    def wfun(dd):
+        return np.where(dd < 2.0e5, 1.0, 0.25)
+    for tname, tgt, radius in (("geos-disk", disk, 9.0e5), ("no-overlap", laea_far, 2.0e5)):
+        tlo, tla = kc.lonlats(tgt)
+        d, sv, tv = kc.dist_matrix(lon.ravel(), lat.ravel(), tlo.ravel(), tla.ravel())
+        has = ((d <= radius) & sv[None, :] & tv[:, None]).any(axis=1).reshape(tgt.shape)
+        cnt_true = ((d <= radius) & sv[None, :] & tv[:, None]).sum(axis=1).reshape(tgt.shape)
+        for dtype, fill in ((np.float64, -999.0), (np.float64, None), (np.int16, -0.5), (np.int16, float("nan")), (np.int16, -9999.25), (np.int32, 7)):
+            for reduce_data in (False, True):
+                for which in ("custom", "gauss"):
+                    data = (ids * 3 % 50).astype(dtype)
+                    inp = {"target": tname, "dtype": np.dtype(dtype).name, "fill_value": None if fill is None else (str(fill) if fill != fill else fill),
+                           "reduce_data": reduce_data, "type": which, "radius": radius}
+                    try:
+                        with warnings.catch_warnings(), np.errstate(all="ignore"):
+                            warnings.simplefilter("ignore")
+                            if which == "custom":
+                                out = kd_tree.resample_custom(src, data, tgt, radius, wfun, neighbours=8, epsilon=0, fill_value=fill, reduce_data=reduce_data, with_uncert=True)
+                            else:
+                                out = kd_tree.resample_gauss(src, data, tgt, radius, radius / 2, neighbours=8, epsilon=0, fill_value=fill, reduce_data=reduce_data, with_uncert=True)
+                    except Exception as e:  # noqa
+                        ctx.fail("kd_tree.resample_" + which, f"raised {type(e).__name__}: {str(e)[:150]}", inp, tags={"cause": "raises"}, size=n_src)
+                        continue
+                    res, std, cnt = out
+                    ctx.case("no-neighbour", (tname, str(dtype), str(fill), reduce_data, which), nontrivial=bool((~has).any()))
+                    ctx.count("no_neighbour." + tname)
+                    RM, SM = np.ma.getmaskarray(res), np.ma.getmaskarray(std)
+                    Rv, Sv, Cv = np.ma.getdata(res).astype(float), np.ma.getdata(std).astype(float), np.ma.getdata(cnt)
+                    probs = []
+                    empty = ~has
+                    if fill is None:
+                        if not RM[empty].all():
+                            probs.append("a location without any neighbour is not masked")
+                    elif fill != fill:
+                        if not (np.isnan(Rv[empty]) | RM[empty]).all():
+                            probs.append(f"a location without any neighbour holds {Rv[empty][~(np.isnan(Rv[empty]) | RM[empty])][0]} instead of the NaN fill value")
+                    elif not (Rv[empty] == fill).all():
+                        probs.append(f"a location without any neighbour holds {Rv[empty][Rv[empty] != fill][0]} instead of the fill value {fill}")
+                    le1 = cnt_true <= 1
+                    sd_defined = ~(np.isnan(Sv) | SM)
+                    if (sd_defined & le1).any():
+                        k_ = tuple(map(int, np.argwhere(sd_defined & le1)[0]))
+                        probs.append(f"standard deviation {Sv[k_]} is defined at {k_} where {int(cnt_true[k_])} neighbour(s) contribute")
+                    if (np.asarray(Cv)[empty] != 0).any():
+                        probs.append("count is not 0 at a location without any neighbour")
+                    if probs:
+                        ctx.fail("kd_tree.resample_" + which, f"{tname} target, {np.dtype(dtype).name} data, fill {fill}: " + "; ".join(probs[:3]), inp, None,
+                                 tags={"cause": "no-neighbour-location"}, size=n_src)
+
+
 def run(ctx):
+    suite_no_neighbour_locations(ctx)
     n = 40 if ctx.quick else 400
     lim = (80, 60) if ctx.quick else (250, 200)
     for _ in range(n):
